@@ -1,30 +1,154 @@
 // vcheck runs one property check: vcheck <Cxx>  (tier from VERIF_TIER).
+//
+// The check itself runs in a supervised child process: the repository's code is
+// linked in-process, and a Go fatal error in it (stack exhaustion, out of
+// memory) cannot be recovered. If the child dies that way, the supervisor finds
+// the in-flight inputs it left in the scratch directory, re-runs each one alone
+// in a fresh process and reports the ones that crash as violations.
 package main
 
 import (
+	"encoding/json"
 	"fmt"
 	"os"
+	"os/exec"
+	"path/filepath"
 	"sort"
+	"strings"
+	"time"
 
 	"verif/checks"
+	"verif/drive"
+	"verif/findings"
 )
 
 func main() {
 	if len(os.Args) < 2 {
-		fmt.Fprintln(os.Stderr, "usage: vcheck <property-id|worker|...> [args]")
+		fmt.Fprintln(os.Stderr, "usage: vcheck <property-id|tool> [args]")
 		os.Exit(2)
-	}
-	if f, ok := checks.Registry[os.Args[1]]; ok {
-		os.Exit(f())
 	}
 	if f, ok := checks.Tools[os.Args[1]]; ok {
 		os.Exit(f(os.Args[2:]))
 	}
-	ids := []string{}
-	for k := range checks.Registry {
-		ids = append(ids, k)
+	f, ok := checks.Registry[os.Args[1]]
+	if !ok {
+		ids := []string{}
+		for k := range checks.Registry {
+			ids = append(ids, k)
+		}
+		sort.Strings(ids)
+		fmt.Fprintf(os.Stderr, "unknown check %q; have %v\n", os.Args[1], ids)
+		os.Exit(2)
 	}
-	sort.Strings(ids)
-	fmt.Fprintf(os.Stderr, "unknown check %q; have %v\n", os.Args[1], ids)
-	os.Exit(2)
+	if os.Getenv("VERIF_CHILD") == "1" {
+		os.Exit(f())
+	}
+	os.Exit(supervise(os.Args[1]))
+}
+
+func supervise(prop string) int {
+	scratch := drive.Scratch()
+	defer drive.Cleanup()
+	start := time.Now()
+	exe, _ := os.Executable()
+	cmd := exec.Command(exe, prop)
+	cmd.Env = append(os.Environ(), "VERIF_CHILD=1", "VERIF_SCRATCH="+scratch)
+	cmd.Stdout = os.Stdout
+	errLog := filepath.Join(scratch, "child.stderr")
+	ef, _ := os.Create(errLog)
+	cmd.Stderr = ef
+	err := cmd.Run()
+	ef.Close()
+	code := 0
+	if err != nil {
+		code = -1
+		if ee, ok := err.(*exec.ExitError); ok {
+			code = ee.ExitCode()
+		}
+	}
+	stderr, _ := os.ReadFile(errLog)
+	if code == 0 || code == 1 {
+		os.Stderr.Write(stderr)
+		return code
+	}
+	if !strings.Contains(string(stderr), "fatal error:") && !strings.Contains(string(stderr), "panic:") && code != -1 {
+		os.Stderr.Write(stderr)
+		return code // the check's own explicit harness error
+	}
+	// The child died. Find the inputs that were in flight and re-run each alone.
+	fmt.Fprintf(os.Stderr, "supervisor: check process died (status %d); isolating the in-flight inputs\n%s\n", code, tail(string(stderr), 12))
+	cands, _ := filepath.Glob(filepath.Join(scratch, "verif-*", "src*", "main.tsh"))
+	more, _ := filepath.Glob(filepath.Join(scratch, "src*", "main.tsh"))
+	cands = append(cands, more...)
+	sort.Strings(cands)
+	crashed := 0
+	for _, c := range cands {
+		for _, target := range []string{"bash", "batch"} {
+			one := exec.Command(exe, "transpile-one", c, target)
+			one.Env = append(os.Environ(), "VERIF_CHILD=1")
+			done := make(chan error, 1)
+			var out []byte
+			go func() { var e error; out, e = one.CombinedOutput(); done <- e }()
+			var e error
+			hang := false
+			select {
+			case e = <-done:
+			case <-time.After(120 * time.Second):
+				one.Process.Kill()
+				hang = true
+			}
+			if e == nil && !hang {
+				continue
+			}
+			crashed++
+			sym := "fatal-error"
+			if hang {
+				sym = "hang"
+			}
+			dir := filepath.Join(findings.Root(), "replays", prop, fmt.Sprintf("crash%d", crashed))
+			os.MkdirAll(filepath.Join(dir, "src"), 0o755)
+			srcDir := filepath.Dir(c)
+			ents, _ := os.ReadDir(srcDir)
+			for _, en := range ents {
+				if b, err := os.ReadFile(filepath.Join(srcDir, en.Name())); err == nil {
+					os.WriteFile(filepath.Join(dir, "src", en.Name()), b, 0o644)
+				}
+			}
+			os.WriteFile(filepath.Join(dir, "output.txt"), []byte(tail(string(out), 40)), 0o644)
+			os.WriteFile(filepath.Join(dir, "replay.sh"), []byte("#!/bin/bash\ncd \"$(dirname \"$0\")\"\n/verif/bin/vcheck transpile-one src/main.tsh "+target+"\n"), 0o755)
+			fmt.Printf("VIOLATION property=%s replay=%s key=transpiler-crash target=%s symptom=%s :: transpiling this input kills the process (%s): %s\n", prop, dir, target, sym, sym, firstLine(string(out)))
+			break
+		}
+	}
+	if crashed == 0 {
+		os.Stderr.Write(stderr)
+		fmt.Fprintln(os.Stderr, "HARNESS ERROR: the check process died and no in-flight input reproduces the crash")
+		return 2
+	}
+	tier := os.Getenv("VERIF_TIER")
+	if tier != "thorough" {
+		tier = "quick"
+	}
+	ev := map[string]interface{}{"property_id": prop, "tier": tier, "seed": 0, "level": "exploration", "wall_s": time.Since(start).Seconds(), "violations": crashed,
+		"assumptions": []string{"the check process was killed by a fatal error inside the repository's code; only the isolated in-flight inputs are reported"},
+		"coverage": map[string]interface{}{"evaluations": len(cands), "distinct_nontrivial": len(cands), "exhaustive": false,
+			"rule": "in-flight inputs of a crashed check run, each re-run alone in a fresh process", "samples": cands}}
+	b, _ := json.MarshalIndent(ev, "", " ")
+	os.WriteFile(filepath.Join(findings.Root(), "evidence", prop+".json"), b, 0o644)
+	return 1
+}
+
+func tail(s string, n int) string {
+	l := strings.Split(strings.TrimRight(s, "\n"), "\n")
+	if len(l) > n {
+		l = l[len(l)-n:]
+	}
+	return strings.Join(l, "\n")
+}
+
+func firstLine(s string) string {
+	if i := strings.IndexByte(s, '\n'); i >= 0 {
+		return s[:i]
+	}
+	return s
 }
